@@ -606,10 +606,16 @@ def r9_filter_chain(ctx, rule):
         ctx.ok(rule, q, 'the %d filters are chained through %s, which is read from and written back to grammar.txt' % (len(steps), cur))
 
 
+def _length_tables(ctx, rule):
+    # edit_length trusts the label: A8 must stand for 8-character values, which holds only if the trainer files every value under
+    # its own length (seed C20-k: Counter(item) for a new length bucket filed the characters of the first item instead)
+    from . import c05
+    return c05.r6_counter_pairing(ctx, rule)
+
 def rules(tier):
     return [('C20.R1', r1_effect_set), ('C20.R2', r2_tokeniser), ('C20.R3', r3_label_lengths), ('C20.R4', r4_reemission),
             ('C20.R5', r5_filter_kernels), ('C20.R6', r6_option_plumbing),
-            ('C20.R7', _supported_only), ('C20.R8', _record_layout), ('C20.R9', r9_filter_chain)]
+            ('C20.R7', _supported_only), ('C20.R8', _record_layout), ('C20.R9', r9_filter_chain), ('C20.R10', _length_tables)]
 
 
 META = {
